@@ -125,6 +125,17 @@ let run (cmd : string) (a : v list) : string =
       pres (fun (tr, cap) ->
           "[" ^ plist (fun ((m, e), n) -> "[" ^ pz m ^ "," ^ pz e ^ "," ^ pnat n ^ "]") tr ^ ",[" ^ pz (fst cap) ^ "," ^ pz (snd cap) ^ "]]")
         (Multifit.multifit_trace (nat_ it) (nat_ k) (zlist vs))
+  (* ---- output types: the documented function of the list of sums ---- *)
+  | "derive", [o; s] ->
+      let ot = match int_ o with
+        | 0 -> Output.OSums | 1 -> Output.OLargest | 2 -> Output.OSmallest | 3 -> Output.OExtreme
+        | 4 -> Output.OSorted | 5 -> Output.ODifference | 6 -> Output.OBinCount | _ -> raise (Parse "outtype") in
+      (match (Output.derive ot (zlist s) : (coq_Z * coq_Z) Output.output) with
+       | Output.OutSums l -> "{\"sums\":" ^ plist pz l ^ "}"
+       | Output.OutNum z -> "{\"num\":" ^ pz z ^ "}"
+       | Output.OutPair (lo, hi) -> "{\"sums\":[" ^ pz lo ^ "," ^ pz hi ^ "]}"
+       | Output.OutCount n -> "{\"num\":" ^ pnat n ^ "}"
+       | _ -> raise (Parse "derive"))
   (* ---- ILP: formulation handed to the solver, decoding of its answer ---- *)
   | "ilp_formulate", [vs; k; copies; ws; o; ok; extras] ->
       let ex = Stdlib.List.map (fun e -> match list_ e with
